@@ -90,7 +90,14 @@ func RunSolo(t *rapid.T, test string) {
 			}
 			pol := forgedPOL(t, net, h, r, "pol")
 			before := len(net.Pool)
-			net.InjectProposal(pk, h, r, pol, bi.block, bi.parts, nil, true)
+			if rapid.IntRange(0, 7).Draw(t, "mislabel") == 0 {
+				// the proposal states another hash than the one of the block its parts encode
+				id := types.BlockID{Hash: append([]byte(nil), bi.id.Hash...), PartSetHeader: bi.id.PartSetHeader}
+				id.Hash[0] ^= 0x40
+				net.InjectProposalAs(pk, h, r, pol, id, bi.parts, nil)
+			} else {
+				net.InjectProposal(pk, h, r, pol, bi.block, bi.parts, nil, true)
+			}
 			for _, p := range net.Pool[before:] {
 				if p.Kind == "part" && rapid.IntRange(0, 4).Draw(t, "withhold") == 0 {
 					pending = append(pending, p)
